@@ -536,7 +536,7 @@ def main():
                         for i in range(lin0.shape[0]))
         free_head = any(len(q) > 0 and not (f0.lb[q[0]] >= 0) for q in getattr(f0, 'qmat', []))
         if bad_empty:
-            hist[src + ':EmptyRowsOk_violated'] = hist.get(src + ':EmptyRowsOk_violated', 0) + 1
+            hist[src + ':violated-empty-row(kept by every interface)'] = hist.get(src + ':violated-empty-row(kept by every interface)', 0) + 1
         if free_head:
             hist[src + ':HeadsNonneg_violated'] = hist.get(src + ':HeadsNonneg_violated', 0) + 1
         for iface in ifaces:
